@@ -394,8 +394,179 @@ pub fn history(rng: &mut Rng, r: &mut Report, rp: &dyn Fn() -> Json, cover: usiz
     Some((b.module(), log, version))
 }
 
+/// The finished module: version as set, bound above every id, assemble, load, built == loaded.
+fn roundtrip(m: &dr::Module, log: &[String], version: Option<(u8, u8)>, r: &mut Report, rp: &dyn Fn() -> Json) {
+    let fail = |r: &mut Report, rule: String, msg: String| {
+        r.violation(format!("C06:{}", rule), format!("{}\nhistory: {}", msg, log.join("; ")), rp().set("history", log.join("; ")));
+    };
+    let h = match &m.header {
+        Some(h) => h.clone(),
+        None => {
+            fail(r, "no-header".into(), "module() returned a module without header".into());
+            return;
+        }
+    };
+    if let Some((ma, mi)) = version {
+        if h.version != ((ma as u32) << 16 | (mi as u32) << 8) {
+            fail(r, "version".into(), format!("header version {:#x} after set_version({}, {})", h.version, ma, mi));
+            return;
+        }
+    }
+    let mx = max_id(m);
+    if h.bound <= mx {
+        fail(r, "bound".into(), format!("header bound {} is not above the largest id used ({})", h.bound, mx));
+        return;
+    }
+    let words = match catch(|| m.assemble()) {
+        Ok(w) => w,
+        Err(p) => {
+            fail(r, "panic:assemble".into(), p.msg);
+            return;
+        }
+    };
+    match catch(|| dr::load_words(&words)) {
+        Err(p) => fail(r, "panic:load".into(), p.msg),
+        Ok(Err(e)) => {
+            // name the first instruction class involved for a stable signature
+            let culprit = match &e {
+                rspirv::binary::ParseState::ConsumerError(ce) => format!("{}", ce),
+                other => rs::state_name(other),
+            };
+            fail(r, format!("load-rejected:{}", culprit.split('`').nth(1).unwrap_or(&culprit).replace(' ', "_")), format!("the assembled module is rejected by the loader: {:?}", e));
+        }
+        Ok(Ok(l)) => {
+            if let Some(d) = rs::module_diff(m, &l) {
+                let key: String = d.split(':').next().unwrap_or("").split(' ').take(2).collect::<Vec<_>>().join("_");
+                fail(r, format!("built-vs-loaded:{}", key), format!("built and loaded modules differ: {}", d));
+            } else {
+                for l in log {
+                    if let Some(name) = l.split('(').next() {
+                        r.nontrivial(format!("in-history:{}", name));
+                    }
+                }
+                r.count("histories_roundtripped", 1);
+                r.count("instructions_in_histories", m.all_inst_iter().count() as u64);
+            }
+        }
+    }
+}
+
+/// Realistic multi-call idioms whose arguments are related across calls (random histories practically never
+/// relate them): a switch on a typed selector defined as a module-scope constant / in the same function / in an
+/// EARLIER function, with case literals of the selector's width; extended instructions of every number of an
+/// imported set (any of the known and near-miss set names) with 0..5 id operands; structured control flow with
+/// line-debug info between the merge instruction and the terminator.
+fn idiom(rng: &mut Rng, idx: u64) -> (dr::Module, Vec<String>) {
+    use rspirv::spirv::{FunctionControl, LoopControl, SelectionControl};
+    let d = crate::gram::db();
+    let mut log: Vec<String> = vec![];
+    let mut b = Builder::new();
+    let void = b.type_void();
+    let fnty = b.type_function(void, vec![]);
+    match idx % 3 {
+        0 => {
+            let widths = [(64u32, true), (64, true), (32, false), (16, false), (8, false)];
+            let (w, two) = widths[rng.below(widths.len())];
+            let t = if w >= 16 && rng.chance(1, 3) { b.type_float(w, None) } else { b.type_int(w, rng.below(2) as u32) };
+            let other = b.type_int(if two { 32 } else { 64 }, 0);
+            let lit = |rng: &mut Rng| if two { Operand::LiteralBit64(((rng.word() as u64) << 32) | rng.word() as u64) } else { Operand::LiteralBit32(rng.word()) };
+            let c = if two { b.constant_bit64(t, 7) } else { b.constant_bit32(t, 7) };
+            let n_before = rng.below(3);
+            let mut earlier_vals = vec![];
+            for _ in 0..n_before {
+                b.begin_function(void, None, FunctionControl::NONE, fnty).unwrap();
+                b.begin_block(None).unwrap();
+                earlier_vals.push(b.undef(t, None));
+                let _ = b.undef(other, None);
+                b.ret().unwrap();
+                b.end_function().unwrap();
+            }
+            b.begin_function(void, None, FunctionControl::NONE, fnty).unwrap();
+            b.begin_block(None).unwrap();
+            let local = b.undef(t, None);
+            let (sel, what) = match rng.below(3) {
+                0 => (c, "module-scope constant"),
+                1 if !earlier_vals.is_empty() => (*rng.pick(&earlier_vals), "value of an earlier function"),
+                _ => (local, "value of the same function"),
+            };
+            let n_cases = rng.below(4);
+            let labels: Vec<u32> = (0..n_cases + 1).map(|_| b.id()).collect();
+            let cases: Vec<(Operand, u32)> = (0..n_cases).map(|i| (lit(rng), labels[i + 1])).collect();
+            log.push(format!("{}-bit selector = {}, {} case(s), {} earlier function(s)", w, what, n_cases, n_before));
+            b.switch(sel, labels[0], cases).unwrap();
+            for l in labels {
+                b.begin_block(Some(l)).unwrap();
+                b.ret().unwrap();
+            }
+            b.end_function().unwrap();
+        }
+        1 => {
+            let name = *rng.pick(crate::scale::IMPORT_NAMES);
+            let decoy = b.ext_inst_import(*rng.pick(crate::scale::IMPORT_NAMES));
+            let set = b.ext_inst_import(name);
+            b.begin_function(void, None, FunctionControl::NONE, fnty).unwrap();
+            b.begin_block(None).unwrap();
+            let table: Vec<u32> = if name.starts_with("GLSL") { d.glsl.iter().map(|e| e.opcode).collect() } else { d.cl.iter().map(|e| e.opcode).collect() };
+            for _ in 0..rng.range(1, 6) {
+                let num = if rng.chance(1, 8) { rng.below(300) as u32 } else { table[rng.below(table.len())] };
+                let n_ops = rng.below(6);
+                let ops: Vec<Operand> = (0..n_ops).map(|_| Operand::IdRef(if rng.chance(1, 2) { rng.below(8) as u32 } else { b.id() })).collect();
+                let s = if rng.chance(1, 6) { decoy } else { set };
+                log.push(format!("ext_inst(set {:?}{}, number {}, {} id operands)", name, if s == decoy { " (decoy import)" } else { "" }, num, n_ops));
+                b.ext_inst(void, None, s, num, ops).unwrap();
+            }
+            b.ret().unwrap();
+            b.end_function().unwrap();
+        }
+        _ => {
+            let file = b.string("shader.comp");
+            let tb = b.type_bool();
+            let cond = b.constant_true(tb);
+            b.begin_function(void, None, FunctionControl::NONE, fnty).unwrap();
+            b.begin_block(None).unwrap();
+            let (m1, t1, f1) = (b.id(), b.id(), b.id());
+            let _ = b.undef(tb, None);
+            let looped = rng.chance(1, 2);
+            if looped {
+                b.loop_merge(m1, t1, LoopControl::NONE, vec![]).unwrap();
+            } else {
+                b.selection_merge(m1, SelectionControl::NONE).unwrap();
+            }
+            let n_lines = rng.below(3);
+            for i in 0..n_lines {
+                if rng.chance(1, 4) {
+                    b.no_line();
+                } else {
+                    b.line(file, 10 + i as u32, rng.below(2) as u32);
+                }
+            }
+            let term = rng.below(3);
+            match term {
+                0 => b.branch_conditional(cond, t1, f1, vec![]).unwrap(),
+                1 => b.branch(t1).unwrap(),
+                _ => b.switch(cond, t1, vec![(Operand::LiteralBit32(1), f1)]).unwrap(),
+            }
+            log.push(format!("{} merge, {} line instruction(s), terminator kind {}", if looped { "loop" } else { "selection" }, n_lines, term));
+            for l in [t1, f1, m1] {
+                b.begin_block(Some(l)).unwrap();
+                if rng.chance(1, 2) {
+                    b.line(file, 20, 1);
+                }
+                if l == m1 {
+                    b.ret().unwrap();
+                } else {
+                    b.branch(m1).unwrap();
+                }
+            }
+            b.end_function().unwrap();
+        }
+    }
+    log.push("module()".into());
+    (b.module(), log)
+}
+
 pub fn run(cfg: &Cfg, rep: &mut Report) {
-    rep.rule = "(per method) every instruction-emitting Builder method (call stubs generated from the signatures of dr/build/*.rs, ~1150 methods) is called in a state where it is legal with unique-marker arguments; the ONE instruction it adds is compared with the instruction computed from the grammar entry of the method's opcode (name rule) and the arguments in grammar order, must land in a block / its logical-layout section, and must survive assemble+parse; (histories) random complete Builder histories with ids taken from the builder: assemble, load, built == loaded section by section, version as set, bound above every id used. distinct_nontrivial = distinct methods compared + distinct methods covered in histories".into();
+    rep.rule = "(per method) every instruction-emitting Builder method (call stubs generated from the signatures of dr/build/*.rs, ~1150 methods) is called in a state where it is legal with unique-marker arguments; the ONE instruction it adds is compared with the instruction computed from the grammar entry of the method's opcode (name rule) and the arguments in grammar order, must land in a block / its logical-layout section, and must survive assemble+parse; (idioms) switches on typed selectors from module scope / the same / an earlier function with case literals of the selector's width, extended instructions of every number of imported sets, merge + line info + terminator; (histories) random complete Builder histories with ids taken from the builder: assemble, load, built == loaded section by section, version as set, bound above every id used. distinct_nontrivial = distinct methods compared + distinct methods covered in histories".into();
     rep.assumptions.push("method-to-opcode mapping: strip insert_/_id, drop underscores, lowercase (ret/ret_value -> Return/ReturnValue); begin_block_no_label, select_*, pop_instruction are outside C06 (C12 covers them)".into());
     let sems = method_sems();
     let emitting: Vec<usize> = sems.iter().filter(|m| m.opname.is_some() && method(m.idx).call.is_some()).map(|m| m.idx).collect();
@@ -418,61 +589,20 @@ pub fn run(cfg: &Cfg, rep: &mut Report) {
             Some(x) => x,
             None => return,
         };
-        let fail = |r: &mut Report, rule: String, msg: String| {
-            r.violation(format!("C06:{}", rule), format!("{}\nhistory: {}", msg, log.join("; ")), rp().set("history", log.join("; ")));
-        };
         if idx < 2 {
             r.sample(Json::obj().set("history", log.iter().take(10).map(|s| Json::from(s.chars().take(160).collect::<String>())).collect::<Vec<_>>()));
         }
-        let h = match &m.header {
-            Some(h) => h.clone(),
-            None => {
-                fail(r, "no-header".into(), "module() returned a module without header".into());
-                return;
+        roundtrip(&m, &log, version, r, &rp);
+    });
+    run_stage(cfg, rep, "idioms", cfg.n(3_000, 600_000), |idx, rng, r| {
+        let rp = || crate::util::replay_ref(cfg, "idioms", idx);
+        let built = catch(|| idiom(rng, idx));
+        match built {
+            Ok((m, log)) => {
+                r.seen("idioms", log.first().map(|s| s.split(',').next().unwrap_or("").split('(').next().unwrap_or("").to_string()).unwrap_or_default());
+                roundtrip(&m, &log, None, r, &rp);
             }
-        };
-        if let Some((ma, mi)) = version {
-            if h.version != ((ma as u32) << 16 | (mi as u32) << 8) {
-                fail(r, "version".into(), format!("header version {:#x} after set_version({}, {})", h.version, ma, mi));
-                return;
-            }
-        }
-        let mx = max_id(&m);
-        if h.bound <= mx {
-            fail(r, "bound".into(), format!("header bound {} is not above the largest id used ({})", h.bound, mx));
-            return;
-        }
-        let words = match catch(|| m.assemble()) {
-            Ok(w) => w,
-            Err(p) => {
-                fail(r, "panic:assemble".into(), p.msg);
-                return;
-            }
-        };
-        match catch(|| dr::load_words(&words)) {
-            Err(p) => fail(r, "panic:load".into(), p.msg),
-            Ok(Err(e)) => {
-                // name the first instruction class involved for a stable signature
-                let culprit = match &e {
-                    rspirv::binary::ParseState::ConsumerError(ce) => format!("{}", ce),
-                    other => rs::state_name(other),
-                };
-                fail(r, format!("load-rejected:{}", culprit.split('`').nth(1).unwrap_or(&culprit).replace(' ', "_")), format!("the assembled module is rejected by the loader: {:?}", e));
-            }
-            Ok(Ok(l)) => {
-                if let Some(d) = rs::module_diff(&m, &l) {
-                    let key: String = d.split(':').next().unwrap_or("").split(' ').take(2).collect::<Vec<_>>().join("_");
-                    fail(r, format!("built-vs-loaded:{}", key), format!("built and loaded modules differ: {}", d));
-                } else {
-                    for l in &log {
-                        if let Some(name) = l.split('(').next() {
-                            r.nontrivial(format!("in-history:{}", name));
-                        }
-                    }
-                    r.count("histories_roundtripped", 1);
-                    r.count("instructions_in_histories", m.all_inst_iter().count() as u64);
-                }
-            }
+            Err(p) => r.violation(format!("C06:panic:idiom:{}", crate::util::panic_key(&p)), format!("a Builder call of an idiom (kind {}) panicked or failed: {}", idx % 3, p.msg), rp()),
         }
     });
     let _ = Operand::IdRef(0);
